@@ -88,6 +88,19 @@ func runC01(c *ctx) error {
 		})
 		add("command changed", false, func(m *c01Mutation) { m.step.Command += " && curl evil" })
 		add("command emptied", st.Command == "", func(m *c01Mutation) { m.step.Command = "" })
+		add("command changed and the old text offered as an env variable named command", false, func(m *c01Mutation) {
+			m.env["command"] = m.step.Command
+			m.step.Command += " && curl evil"
+		})
+		add("repository URL changed and the old URL offered as an env variable named repository_url", false, func(m *c01Mutation) {
+			m.env["repository_url"] = m.repo
+			m.repo += ".evil"
+		})
+		add("verification env gains variables named like signed fields", true, func(m *c01Mutation) {
+			for _, f := range []string{"command", "env", "plugins", "matrix", "repository_url"} {
+				m.env[f] = sigStr(rng)
+			}
+		})
 		add("step env entry added", false, func(m *c01Mutation) {
 			if m.step.Env == nil {
 				m.step.Env = map[string]string{}
@@ -123,12 +136,16 @@ func runC01(c *ctx) error {
 			m.step.Matrix = &pipeline.Matrix{Setup: pipeline.MatrixSetup{"": {"zz-injected"}}}
 		})
 		if st.Matrix != nil && len(st.Matrix.Setup) > 0 {
-			add("matrix value added", false, func(m *c01Mutation) {
-				for d := range m.step.Matrix.Setup {
+			for _, d := range sortedKeysS(st.Matrix.Setup) {
+				d := d
+				add("matrix value added", false, func(m *c01Mutation) {
 					m.step.Matrix.Setup[d] = append(m.step.Matrix.Setup[d], "zz-extra")
-					break
-				}
-			})
+				})
+			}
+			if len(st.Matrix.Setup) > 1 {
+				d := sortedKeysS(st.Matrix.Setup)[len(st.Matrix.Setup)-1]
+				add("matrix dimension removed", false, func(m *c01Mutation) { delete(m.step.Matrix.Setup, d) })
+			}
 			add("matrix adjustment added", false, func(m *c01Mutation) {
 				m.step.Matrix.Adjustments = append(m.step.Matrix.Adjustments, &pipeline.MatrixAdjustment{With: pipeline.MatrixAdjustmentWith{"": "zz"}, Skip: true})
 			})
